@@ -70,17 +70,25 @@ def atom_name(v, world):
 
 def hash_to_json(value, world=None):
     """`NodeHash.value` (nested tuples, type tag first) -> JSON tree."""
-    t = value[0]
-    if t == 0:
-        return {'leaf': val_to_json(value[1], world)}
-    if t == 1:
-        _, func, args, kw = value
-        return {'apply': [fn_name(func, world), [hash_to_json(a, world) for a in args], list(kw)]}
-    if t == 2:
-        return {'graph': hash_to_json(value[1], world)}
-    if t == 3:
-        return {'custom': [value[1], [hash_to_json(c, world) for c in value[2:]]]}
-    raise Unencodable(f'unknown hash type {t}')
+    try:
+        t = value[0]
+        if t == 0:
+            _, data = value
+            return {'leaf': val_to_json(data, world)}
+        if t == 1:
+            _, func, args, kw = value
+            return {'apply': [fn_name(func, world), [hash_to_json(a, world) for a in args], list(kw)]}
+        if t == 2:
+            _, inner = value
+            return {'graph': hash_to_json(inner, world)}
+        if t == 3:
+            return {'custom': [value[1], [hash_to_json(c, world) for c in value[2:]]]}
+    except Unencodable:
+        raise
+    except Exception:
+        pass
+    # not one of the four layouts of node_hash.py: reported as it is (never equal to a model hash)
+    return {'malformed': repr(value)[:200]}
 
 
 def fn_name(func, world):
